@@ -62,7 +62,7 @@ func NewVerifier(repo string, patterns []string) (*Verifier, error) {
 	prog, _ := ssautil.AllPackages(pkgs, ssa.InstantiateGenerics|ssa.GlobalDebug)
 	// build only repository packages (dependencies are handled by contracts)
 	for _, sp := range prog.AllPackages() {
-		if strings.HasPrefix(sp.Pkg.Path(), repoMod) {
+		if isRepoPath(sp.Pkg.Path()) {
 			sp.Build()
 			v.ssaPkgs[sp.Pkg.Path()] = sp
 		}
@@ -157,7 +157,7 @@ func (v *Verifier) lookupConst(fn *ssa.Function, name string) *SV {
 			return r
 		}
 		for _, imp := range fn.Pkg.Pkg.Imports() {
-			if strings.HasPrefix(imp.Path(), repoMod) {
+			if isRepoPath(imp.Path()) {
 				if r := try(imp); r != nil {
 					return r
 				}
@@ -244,7 +244,7 @@ var ifaceBinding = map[string]string{
 // wired in app/app.go (assumption: wiring; checked: the concrete type implements the interface).
 func (v *Verifier) resolveInvoke(e *Enc, c *ssa.CallCommon) *ssa.Function {
 	n := namedOf(c.Value.Type())
-	if n == nil || n.Obj().Pkg() == nil || !strings.HasPrefix(n.Obj().Pkg().Path(), repoMod) {
+	if n == nil || n.Obj().Pkg() == nil || !isRepoPath(n.Obj().Pkg().Path()) {
 		return nil
 	}
 	target, ok := ifaceBinding[n.Obj().Name()]
@@ -564,7 +564,7 @@ func (v *Verifier) lookupGlobalVar(fn *ssa.Function, name string) string {
 			return r
 		}
 		for _, imp := range fn.Pkg.Pkg.Imports() {
-			if strings.HasPrefix(imp.Path(), repoMod) {
+			if isRepoPath(imp.Path()) {
 				if r := try(imp); r != "" {
 					return r
 				}
